@@ -7,8 +7,9 @@ existing engines, each followed IN THE SAME SCRIPT by a liveness probe:
 
   link / treader   real link reader / link layer / transport reader over the mock physical layer, both
                    roles, both error modes; streams are cut into physical reads by the model
-                   (--concretize, as C06/C08 do).  Probe: a well-formed frame sequence that must still be
-                   delivered (discard mode) or, in close mode, either a clean `err ...` as the last
+                   (--concretize, as C06/C08 do).  Probe: a well-formed frame sequence (sent twice, see
+                   cases_link: a hostile header may legitimately swallow the header block of the frame that
+                   follows it directly) that must still be delivered (discard mode) or, in close mode, either a clean `err ...` as the last
                    observation or the delivered frames.  `reset-probe`: Reader::reset() in an arbitrary
                    parser / buffer state (what the next session starts from) followed by whole frames.
   outstation       the real outstation task, decode levels 0..3, solicited buffers 249..2048, receive buffers
@@ -259,10 +260,25 @@ def repeat_section(rng, maxlen):
                        bytes([110, 1, 0, 9, 9, 0x41]), bytes([0x32, 1, 7, 0]), bytes([41, 2, 0x17, 1, 3, 1, 0, 0]),
                        bytes([2, 0, 7, 255]), bytes([60, 2, 8, 0xFF, 0xFF]), bytes([1, 0, 1, 0, 0, 0xFF, 0xFF]),
                        bytes([34, 1, 0x17, 1, 0, 1, 0]), bytes([0, 254, 0, 0, 0]), bytes([0, 0xF0, 6]),
-                       bytes([12, 1, 0x28, 0, 0]), bytes([110, 0, 0, 1, 3]), bytes([70, 5, 0x5B, 1, 0, 0])])
+                       bytes([12, 1, 0x28, 0, 0]), bytes([110, 0, 0, 1, 3]), bytes([70, 5, 0x5B, 1, 0, 0]),
+                       bytes([41, 2, 0x17, 3, 1, 1, 0, 0, 2, 1, 0, 0, 3, 1, 0, 0]), bytes([34, 1, 0x17, 2, 0, 1, 0, 1, 1, 0]),
+                       bytes([1, 2, 0, 0, 1, 1, 1]), bytes([20, 0, 0, 1, 2]), bytes([0x3C, 2, 7, 1])])
     k = maxlen // len(unit) if rng.chance(3, 4) else rng.range(1, max(1, maxlen // len(unit)))
     tail = fbytes(rng, rng.below(3)) if rng.chance(1, 4) else b""
     return (unit * k + tail)[:maxlen]
+
+
+# (function, header) pairs the outstation accepts, repeated to fill fragments of hundreds of kilobytes
+_G41 = bytes([41, 2, 0x17, 3, 1, 1, 0, 0, 2, 1, 0, 0, 3, 1, 0, 0])
+_G12 = bytes([12, 1, 0x17, 1, 5]) + struct.pack("<BBIIB", 3, 1, 10, 10, 0)
+HUGE_PAIRS = ([(fc, u) for fc in (3, 4, 5, 6) for u in (_G41, _G12, bytes([12, 1, 0x17, 0]), bytes([41, 1, 0x28, 0, 0]))]
+              + [(1, u) for u in (bytes([0x3C, 2, 6]), bytes([0x3C, 1, 6]), bytes([1, 2, 0, 5, 5]), bytes([30, 0, 6]), bytes([110, 0, 0, 1, 3]),
+                                  bytes([0x3C, 2, 7, 1]), bytes([1, 0, 1, 0, 0, 0xFF, 0xFF]), bytes([2, 0, 8, 0xFF, 0xFF]), bytes([0, 254, 0, 0, 0]))]
+              + [(2, u) for u in (bytes([0x50, 1, 0, 7, 7, 0]), bytes([34, 1, 0x17, 1, 0, 1, 0]), bytes([34, 2, 0x28, 1, 0, 1, 0, 1, 0, 0, 0]),
+                                  bytes([0x32, 1, 7, 1, 1, 2, 3, 4, 5, 6]), bytes([0x50, 1, 0, 4, 4, 0]))]
+              + [(fc, u) for fc in (7, 8, 9, 10) for u in (bytes([20, 0, 6]), bytes([20, 0, 0, 1, 2]), bytes([20, 0, 1, 0, 0, 0xFF, 0xFF]))]
+              + [(fc, u) for fc in (20, 21) for u in (bytes([0x3C, 2, 6]), bytes([0x3C, 3, 6, 0x3C, 4, 6]))]
+              + [(22, bytes([0x3C, 2, 6, 1, 0, 6])), (22, bytes([0x3C, 3, 6, 30, 0, 0, 0, 9])), (22, bytes([0x3C, 1, 6, 20, 0, 1, 0, 0, 0xFF, 0xFF]))])
 
 
 def hostile_objects(rng, fc, maxlen):
@@ -478,7 +494,11 @@ class C01(ost.OutstationProp):
             if probe == "reset":
                 stream = hostile
             else:
-                stream = hostile + b"".join(good) + flush
+                # the well-formed sequence is sent twice: a valid hostile header that announces 8 more octets
+                # (LEN = 13, 29, ...) directly in front of a well-formed frame takes that frame's header block
+                # (8 octets + their own CRC) as its last body block - the frame IS valid, the format is ambiguous
+                # there - so the first copy may lose its first frame; the second copy finds a resynchronised parser
+                stream = hostile + b"".join(good) + b"".join(good) + flush
             metas[sid] = {"engine": engine, "kind": kind, "mode": mode, "probe": probe, "expect": expect,
                           "good_feeds": [hexs(g) for g in good], "impl_only": probe == "reset", "hostile_len": len(hostile)}
             abstract.append(script_text(sid, engine, cfg, [tuple(["stream", hexs(stream)] + sizes)]))
@@ -542,7 +562,7 @@ class C01(ost.OutstationProp):
         return fails
 
     # ---- (ii) outstation ----------------------------------------------------------------------------------
-    def cases_outstation(self, rng, n):
+    def cases_outstation(self, rng, n, huge=0):
         out = []
         F = ost.FN
         for i in range(n):
@@ -559,6 +579,13 @@ class C01(ost.OutstationProp):
             cfg["retry_delay_ms"] = rng.choice([500, 1000])
             if rng.chance(1, 3): cfg["wtime"] = rng.below(3)
             if rng.chance(1, 3): cfg["freeze"] = rng.below(3)
+            if huge and i < huge:
+                # BufferSize has no upper bound: fragments of several hundred kilobytes made of one small header
+                # repeated (more than 65535 objects / headers of one kind: u16 and u8 counters, finding F18)
+                state = "huge-" + state
+                cfg["rx"] = rng.choice([270000, 400000])
+                cfg["soltx"] = rng.choice([249, 2048, 400000])
+                cfg["decode"] = rng.choice([0, 0, 3])
             rx = cfg["rx"]
             ops = []
             npts = rng.range(1, 3)
@@ -595,7 +622,16 @@ class C01(ost.OutstationProp):
                 who = rng.below(12)
                 frm = ost.FOREIGN if who == 0 else ost.MASTER
                 bc = rng.choice(["opt", "mand", "notreq"]) if who == 1 else "none"
-                rxop(hostile_request(rng, seq if rng.chance(3, 4) else rng.below(16), rx), frm, bc)
+                if state.startswith("huge") and rng.chance(2, 3):
+                    if rng.chance(2, 3):
+                        fc, unit = rng.choice(HUGE_PAIRS)
+                        body = (unit * ((rx - 2) // len(unit)))
+                    else:
+                        fc = rng.choice([1, 2, 3, 4, 5, 6, 6, 7, 8, 20, 22])
+                        body = repeat_section(rng, rx - 2)
+                    rxop(bytes([ost.ctl(seq), fc]) + body)
+                else:
+                    rxop(hostile_request(rng, seq if rng.chance(3, 4) else rng.below(16), min(rx, 4096)), frm, bc)
                 r = rng.below(10)
                 if r == 0: upd()
                 elif r == 1: rxop(ost.frag(seq, F["confirm"]))
@@ -725,7 +761,7 @@ class C01(ost.OutstationProp):
         quick = tier == "quick"
         out = []
         out += self.cases_link(rng, 220 if quick else 7000)
-        out += self.cases_outstation(rng, 320 if quick else 8000)
+        out += self.cases_outstation(rng, 320 if quick else 8000, huge=4 if quick else 120)
         out += self.cases_app(rng, 100 if quick else 3000)
         out += self.cases_master(rng, 120 if quick else 3000)
         return out
